@@ -215,7 +215,16 @@ class Interp:
 KEY_RE = re.compile(r'^(UNIFORM|UNIFORMSYM|NORMAL)(?:_(HALTON)(\d+)|_(MLHS))?(_ANTI)?$')
 
 
+#: obligations whose failure contradicts the property (rule, construct pattern, why); every other failure is 'not recognised'
+POSITIVE: list[tuple[str, str, str]] = [
+    ('C11.R1', r'^catalogue\[\w+\](\.description)?$', 'the key / the description of a catalogue entry names another support, method or variant than the entry has'),
+    ('C11.R1', r'^catalogue\[\w+\]=catalogue\[\w+\]$', 'two catalogue keys deliver the same thing'),
+    ('C11.R3', r'^AS241\.(?!algorithm)', 'a constant, shift or region of the matched AS241 algorithm differs from the published one'),
+]
+
+
 def run(ctx: Ctx) -> None:
+    ctx.positive_table = list(POSITIVE)
     prog = ctx.prog
     ctx.rule(
         'C11.R1',
@@ -281,7 +290,7 @@ def run(ctx: Ctx) -> None:
         ok = d == want
         ctx.add('C11.R1', f'catalogue[{key}].generator', ok, where,
                 f'{key} is bound to {unparse(gen)} which yields: {d.describe()}' + ('' if ok else f'; advertised: {want.describe()}'),
-                detail=d.describe())
+                detail=d.describe(), positive=True)
         seen_features[key] = d
         # description tokens
         problems = []
